@@ -57,8 +57,10 @@ LIFT = {
     "arr_int": {"type": "array", "items": INT}, "arr_min1": {"type": "array", "minItems": 1}, "tup2": {"type": "array", "items": [INT, INT], "minItems": 2, "maxItems": 2},
     "obj_x": {"type": "object", "properties": {"x": INT}}, "obj_y_req": {"type": "object", "properties": {"y": STR}, "required": ["y"]},
     "ref_en": {"$ref": "#/definitions/En"}, "ref_base": {"$ref": "#/definitions/Base"}, "any": {},
+    "num": {"type": "number"}, "num_enum": {"type": "number", "enum": [1, 2.5, 10]}, "int_enum": {"type": "integer", "enum": [1, 2]}, "bool": {"type": "boolean"},
+    "u8": {"type": "integer", "format": "uint8", "minimum": 0}, "uuid": {"type": "string", "format": "uuid"}, "enum_strnull": {"enum": ["a", None]},
 }
-LIFT_QUICK = ["int", "str", "enum_ab", "enum_bc", "arr_int", "arr_min1", "tup2", "obj_x", "ref_en", "any"]
+LIFT_QUICK = ["int", "str", "enum_ab", "enum_bc", "arr_int", "arr_min1", "tup2", "obj_x", "ref_en", "any", "num", "num_enum", "int_enum"]
 
 
 def lifted_cases(tier):
